@@ -77,7 +77,7 @@ func verifHostname(n int) {
 }
 
 func VerifC17_Hostname4()  { verifHostname(4) }
-func VerifC17T_Hostname6() { verifHostname(6) }
+func VerifC17T_Hostname5() { verifHostname(5) }
 
 // verifDottedQuad: s is d.d.d.d with 1-3 digit groups, each <= 255 and without
 // a leading zero.
